@@ -340,3 +340,14 @@ func (c *Conc) SetConfig(name string, v int64) {
 	}
 	c.X.Config[name] = v
 }
+
+// LenOf returns the length of a slice or string value as a scalar value.
+func LenOf(v Val) Val {
+	switch a := v.(type) {
+	case VSlice:
+		return VT{a.Len, tyInt}
+	case VStr:
+		return VT{a.Len, tyInt}
+	}
+	panic(&ExecError{"LenOf: not a slice or string"})
+}
